@@ -37,10 +37,10 @@ Lemma adjust_pos inp lo s n ml ex s' n' :
   adjust_node_newlines inp lo s n ml ex = Ok (s', n') -> pos s' = pos s.
 Proof. unfold adjust_node_newlines. intro H. inv; reflexivity. Qed.
 
-Lemma stcb_loop_ge rest : forall p run otl b e b' sc,
-  stcb_loop rest p run otl b = (Some e, b', sc) -> p <= e.
+Lemma stcb_loop_ge rest : forall p run otl fr b e b' sc,
+  stcb_loop rest p run otl fr b = (Some e, b', sc) -> p <= e.
 Proof.
-  induction rest as [|c r IH]; intros p run otl b e b' sc H; simpl in H.
+  induction rest as [|c r IH]; intros p run otl fr b e b' sc H; simpl in H.
   - destruct run; [discriminate|]. destruct (Nat.eqb (S run) otl); inversion H; lia.
   - destruct (beqb c x60).
     + apply IH in H. lia.
@@ -124,7 +124,7 @@ Proof.
       destruct (Nat.ltb maxbt (count_eq inp x60 (pos s))); [inversion Es|].
       destruct (_ && _ && _); [inversion Es|].
       cbn [pos set_pos] in Es.
-      destruct (stcb_loop _ _ _ _ _) as [[r b'] sc] eqn:El. inversion Es; subst.
+      destruct (stcb_loop _ _ _ _ _ _) as [[r b'] sc] eqn:El. inversion Es; subst.
       apply stcb_loop_ge in El. exact El. }
     inv. apply adjust_pos in H. rewrite H. cbn [pos set_pos]. lia.
   - inv. cbn [pos set_pos]. lia.
@@ -386,13 +386,8 @@ Definition backtick_memo_sound_full_statement : Prop :=
 Definition memo_witness : bytes :=
   [x60; x60; x60; x20; x61; x20; x60; x60; x20; x62; x20; x60; x20; x63; x20; x60; x60; x20; x64; x20; x60; x20; x78; x20; x60].
 
-Lemma backtick_memo_refuted_lemma : ~ backtick_memo_sound_full_statement.
-Proof.
-  intro H. specialize (H io_default oracle_ascii memo_witness [0%N] 1%N [] 100000%N 0%N).
-  vm_compute in H. discriminate H.
-Qed.
-
-(* what the memo-free parser finds at the end of the witness and the parser with the memo does not *)
+(* what both parsers find at the end of the witness (before the repair of INL-1 the parser with the memo left a
+   literal backtick there: the table entry of the last one-backtick run had been overwritten by an earlier one) *)
 Definition last_child (r : res outcome) : option node :=
   match r with Ok (Done l _) => Some (last l (Node Document (mkSp 0 0 0 0) [])) | _ => None end.
 
@@ -400,7 +395,7 @@ Lemma memo_witness_values :
   last_child (run_inlines_gen false io_default oracle_ascii memo_witness [0%N] 1%N [] 100000%N 0%N)
     = Some (Node (Code 1 [x78]) (mkSp 1 21 1 25) [])
   /\ last_child (run_inlines_gen true io_default oracle_ascii memo_witness [0%N] 1%N [] 100000%N 0%N)
-    = Some (Node (Text [x60]) (mkSp 1 25 1 25) []).
+    = Some (Node (Code 1 [x78]) (mkSp 1 21 1 25) []).
 Proof. split; vm_compute; reflexivity. Qed.
 
 (* the memo only ever turns an answer into None; it never invents a closer *)
@@ -457,12 +452,12 @@ Definition inline_kinds_valid_full_statement : Prop :=
   forall memo o u inp lo sl refmap maxref rs0 ch rs,
     parse_inlines memo o u inp lo sl refmap maxref rs0 = Ok (ch, rs) -> forallb itree ch = true.
 
-(* ------------------------------------------------------------------ reference definitions: the title survives the rewind.
-   content: [a]: /u NEWLINE "t" junk NEWLINE *)
+(* ------------------------------------------------------------------ reference definitions: the title does not survive the
+   rewind (INL-2 repaired: `title.clear()`).  content: [a]: /u NEWLINE "t" junk NEWLINE *)
 Definition refdef_witness : bytes :=
   [x5b; x61; x5d; x3a; x20; x2f; x75; x0a; x22; x74; x22; x20; x6a; x75; x6e; x6b; x0a].
 
-Lemma refdef_title_kept_lemma :
+Lemma refdef_title_dropped_lemma :
   refdefs (map to_lower_ascii) refdef_witness
-  = Ok ([x22; x74; x22; x20; x6a; x75; x6e; x6b; x0a], [([x61], ([x2f; x75], [x74]))]).
+  = Ok ([x22; x74; x22; x20; x6a; x75; x6e; x6b; x0a], [([x61], ([x2f; x75], []))]).
 Proof. vm_compute. reflexivity. Qed.
